@@ -115,9 +115,10 @@ struct Gen {
                         if constexpr (std::is_same_v<H, lg::lock_handle<Pair, M>>) return w2->lock();
                         else return w2->lock_shared();
                     }();
+                    const void* mtx2 = last_lock_acquired();  // the lock h2 took on the second wrapper (enabled mode)
                     h2 = std::move(h);
                     if (enabled) {
-                        MC_CHECK(!is_locked(&w2->m_mutex), "assign-kept-old", "move assignment did not release the lock previously held by the target");
+                        MC_CHECK(!is_locked(mtx2), "assign-kept-old", "move assignment did not release the lock previously held by the target");
                         MC_CHECK(holds(mtx) != 0, "move-lost-lock", "lock not held after move assignment");
                     }
                     MC_CHECK(bool(h2), "move-null", "move-assigned handle is null");
@@ -137,8 +138,18 @@ struct Gen {
         hx::win_reset();
         size_t base_blocks = live_blocks();
         W* w = make(enabled);
-        const void* mtx = &w->m_mutex;
-        const Pair* obj = &w->m_obj;
+        // which lock belongs to the wrapper and where the object is: found by one acquisition through the public
+        // interface (no private member names); with locking disabled no lock is taken and mtx stays null
+        const Pair* obj = nullptr;
+        const void* mtx = hx::probe_lock([&] {
+            if constexpr (HasExcl) {
+                auto h = w->lock();
+                if (h) obj = &*h;
+            } else {
+                auto h = w->lock_shared();
+                if (h) obj = &*h;
+            }
+        });
         {
             Ctx cx;
             std::vector<int> ids;
